@@ -47,9 +47,15 @@ IMPURE_PREFIXES = ("self.self_advertise", "self.ez_send", "self.pseudonym_manage
 
 
 # ---- normalisation -----------------------------------------------------------------------------------------------
+LOG_METHODS = ("debug", "info", "warning", "warn", "error", "exception", "critical", "log")
+
+
 def _is_log(st) -> bool:
-    return (isinstance(st, ast.Expr) and isinstance(st.value, ast.Call)
-            and ast.unparse(st.value.func).startswith("self.logger."))
+    if not (isinstance(st, ast.Expr) and isinstance(st.value, ast.Call) and isinstance(st.value.func, ast.Attribute)):
+        return False
+    f = st.value.func
+    return f.attr in LOG_METHODS and bool(re.fullmatch(r"(self\.)?_?(logger|log)|logging(\.getLogger\(.*\))?",
+                                                       ast.unparse(f.value)))
 
 
 def _is_doc(st) -> bool:
@@ -204,6 +210,16 @@ class _Orient(ast.NodeTransformer):
         return node
 
 
+class _TimeCall(ast.NodeTransformer):
+    """`time.time()` -> `time()`"""
+
+    def visit_Call(self, node):
+        self.generic_visit(node)
+        if ast.unparse(node.func) == "time.time" and not node.args and not node.keywords:
+            return ast.Call(func=ast.Name(id="time", ctx=ast.Load()), args=[], keywords=[])
+        return node
+
+
 class _Positional(ast.NodeTransformer):
     """keyword arguments -> positional, for calls whose parameter list is known"""
 
@@ -227,7 +243,7 @@ class _Positional(ast.NodeTransformer):
         return node
 
 
-def normalise(fn: ast.FunctionDef, params: list[str], sigs) -> list[ast.stmt]:
+def normalise(fn: ast.FunctionDef, params: list[str], sigs, consts=None) -> list[ast.stmt]:
     got = [a.arg for a in fn.args.args]
     if len(got) != len(params) or fn.args.vararg or fn.args.kwarg or fn.args.kwonlyargs:
         raise TranslatorError(f"{fn.name}: parameter list {got} does not match {params}")
@@ -237,7 +253,9 @@ def normalise(fn: ast.FunctionDef, params: list[str], sigs) -> list[ast.stmt]:
     tmp = {a: f"__p{i}" for i, a in enumerate(got)}
     body = [_Rename(tmp).visit(s) for s in body]
     body = [_Rename({f"__p{i}": p for i, p in enumerate(params)}).visit(s) for s in body]
-    body = [_Positional(sigs).visit(s) for s in body]
+    body = [_TimeCall().visit(_Positional(sigs).visit(s)) for s in body]
+    for cname, cval in (consts or {}).items():
+        body = [ast.fix_missing_locations(_Subst(cname, ast.Constant(value=cval)).visit(s)) for s in body]
     body = _inline(body)
     locs = [n for n in _stores(body) if n not in params]
     tmp = {n: f"__l{i}" for i, n in enumerate(locs)}
@@ -328,7 +346,9 @@ def translate(path=None) -> str:
     # ---- should_sign ---------------------------------------------------------------------------------------------
     guards, notes = [], []
     fields_seen: list[str] = []
-    b = normalise(fns["should_sign"], ["self", "pseudonym", "metadata"], sigs)
+    int_consts = {k: v for k, v in consts.items() if isinstance(v, int) and not isinstance(v, bool)
+                  and k != "SAFE_UDP_PACKET_LENGTH"}
+    b = normalise(fns["should_sign"], ["self", "pseudonym", "metadata"], sigs, int_consts)
 
     def slot(i: int, field: str, guard: str):
         if i != idx[field]:
@@ -375,15 +395,17 @@ def translate(path=None) -> str:
             slot(i, "key", "subject-key")
             guards.append("subjectKey")
             return
-        for tmpl in ("time() > " + K + "[{i}] + {n}", "time() > {n} + " + K + "[{i}]", "time() - " + K + "[{i}] > {n}"):
-            mm = re.fullmatch(re.escape(_norm_expr(tmpl.format(i=7, n=987654321))).replace("7", r"(\d+)", 1)
-                              .replace("987654321", r"(\d+)"), c)
-            if mm:
-                g = mm.groups()
-                i, n = (int(g[0]), int(g[1])) if tmpl.index("{i}") < tmpl.index("{n}") else (int(g[1]), int(g[0]))
-                slot(i, "time", "age")
-                guards.append(f".fresh {n}")
-                return
+        for op, strict in ((">", "false"), (">=", "true")):
+            for tmpl in ("time() OP " + K + "[{i}] + {n}", "time() OP {n} + " + K + "[{i}]", "time() - " + K + "[{i}] OP {n}"):
+                tmpl = tmpl.replace("OP", op)
+                mm = re.fullmatch(re.escape(_norm_expr(tmpl.format(i=7, n=987654321))).replace("7", r"(\d+)", 1)
+                                  .replace("987654321", r"(\d+)"), c)
+                if mm:
+                    g = mm.groups()
+                    i, n = (int(g[0]), int(g[1])) if tmpl.index("{i}") < tmpl.index("{n}") else (int(g[1]), int(g[0]))
+                    slot(i, "time", "age")
+                    guards.append(f".fresh {n} {strict}")
+                    return
         i = find_slot(c, TRANSACTION + "['name'] != " + K + "[{i}]")
         if i is not None:
             slot(i, "name", "name")
@@ -392,19 +414,22 @@ def translate(path=None) -> str:
         if isinstance(c_node, ast.BoolOp) and isinstance(c_node.op, ast.And) and len(c_node.values) == 2:
             a_, b_ = (ast.unparse(v) for v in c_node.values)
             i1 = find_slot(a_, K + "[{i}] is not None")
-            extras = "{{k: v for k, v in " + TRANSACTION + ".items() if k not in {lst}}} != " + K + "[{i}]"
-            i2 = None
-            for lst in ("['name', 'date', 'schema']", "('name', 'date', 'schema')", "{'name', 'date', 'schema'}"):
-                cand = re.sub(r"\bv\d+\b", "V", b_)
-                for i in range(8):
-                    want_ = re.sub(r"\b[kv]\b", "V", _norm_expr(extras.format(lst=lst, i=i)))
-                    if cand == want_:
-                        i2 = i
-                if i2 is not None:
-                    break
-            if i1 is not None and i2 is not None:
+            comp = "{{k: v for k, v in " + TRANSACTION + ".items() if k not in {lst}}}"
+            strict_t = "json.dumps(" + comp + ", sort_keys=True) != json.dumps(" + K + "[{i}], sort_keys=True)"
+            loose_t = comp + " != " + K + "[{i}]"
+            found = None
+            cand = re.sub(r"\bv\d+\b", "V", b_)
+            for kind, tmpl in (("strict", strict_t), ("loose", loose_t)):
+                for lst in ("['name', 'date', 'schema']", "('name', 'date', 'schema')", "{'name', 'date', 'schema'}"):
+                    for i in range(8):
+                        if cand == re.sub(r"\b[kv]\b", "V", _norm_expr(tmpl.format(lst=lst, i=i))):
+                            found = (kind, i)
+            if i1 is not None and found is not None:
                 slot(i1, "md", "fixed-metadata")
-                slot(i2, "md", "fixed-metadata")
+                slot(found[1], "md", "fixed-metadata")
+                if found[0] == "loose":
+                    raise TranslatorError("should_sign: the fixed-metadata guard compares with Python `!=`, under which "
+                                          "True == 1 == 1.0: metadata {\"a\": true} passes a registration fixing {\"a\": 1}")
                 guards.append("fixedMetadata")
                 return
         if c == _norm_expr("metadata.get_hash() in self.attested_metadata"):
@@ -532,8 +557,20 @@ def translate(path=None) -> str:
         raise TranslatorError(f"the permissions table is written outside request_attestation_advertisement: {extra}")
 
     # ---- does the node record what it attests to? ---------------------------------------------------------------------
-    rtxt = ast.unparse(fns["_received_disclosure_for_attest"])
-    records = bool(re.search(r"self\.attested_metadata\.add\(\w+\.metadata\.get_hash\(\)\)", rtxt))
+    records = False
+    for n in ast.walk(fns["_received_disclosure_for_attest"]):
+        if isinstance(n, ast.If) and re.fullmatch(r"self\.should_sign\(\w+, (\w+)\.metadata\)", ast.unparse(n.test)):
+            cred = re.fullmatch(r"self\.should_sign\(\w+, (\w+)\.metadata\)", ast.unparse(n.test)).group(1)
+            direct = [ast.unparse(x) for x in _clean(n.body)]
+            add = f"self.attested_metadata.add({cred}.metadata.get_hash())"
+            sends = [i for i, x in enumerate(direct) if x.startswith("self.ez_send(") and "AttestPayload(" in x]
+            if add in direct:
+                records = True          # unconditionally, in the same block that sends the AttestPayload
+            elif any("attested_metadata" in x for x in direct):
+                raise TranslatorError("_received_disclosure_for_attest: attested_metadata is updated, but not by the "
+                                      "plain statement `" + add + "` next to the send")
+            if not sends:
+                raise TranslatorError("_received_disclosure_for_attest: no AttestPayload send under `if self.should_sign`")
     if ("notAttestedMem" in guards) != records:
         notes.append("attested_metadata is %s but %s" % ("recorded" if records else "not recorded",
                                                           "not consulted" if records else "consulted"))
@@ -554,6 +591,9 @@ def translate(path=None) -> str:
         "/-- should_sign: its guards (canonical order; data dependencies between guards are checked by the translator)"
         + ("".join("\n    NOTE: " + n for n in notes)) + " -/",
         f"def guards : List Guard := [{g}]",
+        "",
+        "/-- the age guard rejects `time() >= t + window` (true) or only `time() > t + window` (false) -/",
+        "def windowStrict : Bool := " + ("true" if any(x.startswith(".fresh") and x.endswith("true") for x in guards) else "false"),
         "",
         "/-- _received_disclosure_for_attest adds every metadata hash it attests to `attested_metadata` -/",
         f"def recordsOwn : Bool := {'true' if records else 'false'}",
